@@ -64,6 +64,11 @@ def ledger_and_determinism(ctx, n, budget):
         # bias toward nesting that stresses key derivation
         w = {"Scan": 3.0, "Vmap": 2.5, "Repeat": 1.5, "Static": 3.0, "Iterate": 1.5, "Accumulate": 1.5}
         cfg = gen.Cfg(depth=depth, weights=w, kinds=[k for k in gen.ALL_KINDS if k != "MaskedIterate"], root=["Scan", "Vmap", "Static", "Repeat", "Iterate"] if rng.random() < 0.7 else None)
+        if rng.random() < 0.4:
+            # nested generative-function calls inside the kernels of vector combinators: the
+            # place where per-iteration and per-site key derivations meet
+            cfg = gen.Cfg(depth=3, kinds=["Dist", "Static"], weights={"Static": 2.0, "Dist": 1.5}, max_stmts=3, sizes=(2, 3),
+                          root=["Scan", "Iterate", "Accumulate", "Vmap", "Repeat"], vector_dists=False)
         node = gen.gen_program(rng, cfg)
         args = gen.gen_args(rng, node)
         try:
